@@ -358,6 +358,23 @@ def fold_strings(func_node, module_consts=None):
                 return fold(e.func.value).join(env[a.id])
             if isinstance(a, (ast.List, ast.Tuple)):
                 return fold(e.func.value).join(fold(x) for x in a.elts)
+        if isinstance(e, ast.Call) and isinstance(e.func, ast.Attribute) and e.func.attr == 'format' and not any(k.arg is None for k in e.keywords):
+            # constant folding of 'lit {} lit'.format(<folded strings>)
+            tmpl = fold(e.func.value)
+            try:
+                return tmpl.format(*[fold(a) for a in e.args], **{k.arg: fold(k.value) for k in e.keywords})
+            except (IndexError, ValueError):
+                raise KeyError('format')
+        if isinstance(e, ast.BinOp) and isinstance(e.op, ast.Mod):
+            tmpl = fold(e.left)
+            r = e.right
+            vals = tuple(fold(x) for x in r.elts) if isinstance(r, ast.Tuple) else (fold(r),)
+            try:
+                return tmpl % vals
+            except (TypeError, ValueError):
+                raise KeyError('percent')
+        if isinstance(e, ast.Call) and isinstance(e.func, ast.Name) and e.func.id == 'str' and len(e.args) == 1:
+            return fold(e.args[0])
         raise KeyError(norm(e))
 
     for st in func_node.body:
